@@ -24,7 +24,7 @@ PROP = {
              "SlashWithInfractionReason or dogfood SlashWithInfractionReason (by consensus address, known or unknown), with power aimed at "
              "value/20, value/3, value, value+1, 2*value+1, 1, random; factor from {0, 1e-18, 1/3, 5%, 1, 0.999.., random, 1.5, 1+1e-18, negative, nil}; "
              "infraction height before/at/after the undelegations, in the current block, in the future; replayed identifiers (same and other "
-             "entry point); directed scenarios first (same-block undelegation, zero operator value, replay through each entry point); "
+             "entry point); directed scenarios first (same-block undelegation regression, zero operator value, replay through each entry point); "
              "distinct = distinct sha1 of the case; non-trivial = at least one call changed the dumped state"),
     "explanation": ("Theorems (Coq) about the executable model of CheckSlashParameter / SlashAssets / SlashFromUndelegation / Slash / "
                     "UpdateOperatorSlashInfo / SlashWithInfractionReason for ALL states, prices, heights and calls: the model's step satisfies the "
@@ -46,8 +46,9 @@ PROP = {
         "visited once; check_case verifies key uniqueness of every dump)",
     ],
     "assumptions": [
-        "C04_step_meets_statement is stated under call_quirk_free (no undelegation of the operator started in the current block when the infraction "
-        "height equals the current block height); that configuration is the known finding C04-same-block-undelegation-not-slashed (C04_same_block_undelegation_refuted)",
+        "the former known finding (infraction in the current block: undelegations started in it were skipped by `SlashEventHeight < BlockHeight`) is "
+        "repaired by repo_patches/fix-c04-same-block-undelegation.patch (`<=`); the model has the repaired condition, the theorems carry no exclusion "
+        "any more, and the directed scenario (tag regress-C04-same-block-undelegation) plus every random case with that configuration act as regression",
         "operator value zero makes SlashAssets panic (LegacyDec.Quo by zero); the statement treats it as outside C04 (C11) and the monitor only accepts a "
         "panic when the observed value is zero and nothing changed",
     ],
